@@ -427,6 +427,50 @@ fn run_kernel(f: &[&str]) -> String {
             let out = env.render_str(src, context! { it => it })?;
             Ok(format!("ok:{}", out))
         })),
+        // k loopesc LEN SIZED BRK → ok:<attrs of the loop object read AFTER its loop> (the object escapes
+        // through a namespace; BRK = leave at the first item, otherwise the loop is exhausted)
+        "loopesc" => finish(guarded(|| {
+            let l: i64 = f[1].parse().unwrap();
+            let it = if f[2] == "1" { Value::from((0..l).collect::<Vec<_>>()) } else { Value::make_iterable(move || (0..l).filter(|_| true)) };
+            let src = "{% set ns = namespace() %}{% for x in it %}{% set ns.l = loop %}{% if brk %}{% break %}{% endif %}{% endfor %}\
+                {{ ns.l.index0 }}:{{ ns.l.index }}:{{ ns.l.length }}:{{ ns.l.revindex }}:{{ ns.l.revindex0 }}:{{ ns.l.first }}:{{ ns.l.last }}:{{ ns.l.depth }}:{{ ns.l.depth0 }};";
+            let out = env.render_str(src, context! { it => it, brk => f[3] == "1" })?;
+            Ok(format!("ok:{}", out.trim()))
+        })),
+        // k nestamp POS K <derivation> → the derivation substituted K times into its own POS-th leaf
+        // (directed search after a `nest` disagreement: a leak of the chain accounting compounds)
+        "nestamp" => {
+            let pos: usize = f[1].parse().unwrap_or(0);
+            let k: usize = f[2].parse().unwrap_or(1);
+            let d = f[3];
+            let leaves: Vec<usize> = d.char_indices().filter(|(i, c)| *c == 'x' && (*i == 0 || d.as_bytes()[*i - 1] != b'*')).map(|(i, _)| i).collect();
+            let at = match leaves.get(pos) {
+                Some(a) => *a,
+                None => return "bad-case".into(),
+            };
+            let mut cur = d.to_string();
+            for _ in 0..k {
+                cur = format!("{}{}{}", &d[..at], cur, &d[at + 1..]);
+                if cur.len() > 4_000_000 {
+                    break;
+                }
+            }
+            let src = match nest_parse(cur.as_bytes(), &mut 0) {
+                Some(n) => nest_source(&n),
+                None => return "bad-case".into(),
+            };
+            match guarded(|| {
+                let ex = env.compile_expression_owned(src)?;
+                ex.eval(ctx_zoo(0)).map(|v| v.to_string().len())
+            }) {
+                Ok(Ok(_)) => "ok".into(),
+                Ok(Err(e)) => {
+                    let dd = e.detail().unwrap_or("").to_string();
+                    if dd.contains("nested too deeply") { "err-chain".into() } else if dd.contains("recursion limit") { "err-rec".into() } else { format!("err-other:{}", error_kind_name(&e)) }
+                }
+                Err(_) => format!("panic:{}", last_panic()),
+            }
+        }
         // k zpad STYLE D W → ok:<len>   zero padding of a grouped D-digit number to width W
         // (c `{:0W,d}`, u `{:0W_d}`, x `{:0W_x}` of 10^(D-1) resp. 16^(D-1))
         "zpad" => finish(guarded(|| {
@@ -581,9 +625,84 @@ fn nest_source(n: &Nest) -> String {
 }
 
 // ---- depth probes ----------------------------------------------------------------------------
+const PARSER_RS: &str = include_str!("/repo/minijinja/src/compiler/parser.rs");
+
+/// `MAX_EXPR_NESTING` of the parser this binary was built against
+fn max_expr_nesting() -> usize {
+    let key = "const MAX_EXPR_NESTING: usize = ";
+    PARSER_RS
+        .find(key)
+        .and_then(|i| {
+            let rest = &PARSER_RS[i + key.len()..];
+            let digits: String = rest.chars().take_while(|c| c.is_ascii_digit() || *c == '_').filter(|c| *c != '_').collect();
+            digits.parse().ok()
+        })
+        .unwrap_or(1000)
+}
+
+pub const CHAIN_KINDS: &[&str] = &["attr", "item", "call", "filter", "test", "binop", "ternary"];
+pub const GROUP_KINDS: &[&str] = &["paren", "list", "map", "callarg", "filterarg", "slice", "dictval"];
+pub const PLACEMENTS: &[&str] = &["expr", "for", "if", "set", "macrodef", "callblk", "with"];
+
+fn chain_suffix(ck: &str) -> &'static str {
+    match ck {
+        "attr" => ".a",
+        "item" => "[0]",
+        "call" => "()",
+        "filter" => "|e",
+        "test" => " is defined",
+        "binop" => "+1",
+        _ => " if 1",
+    }
+}
+
+fn group_wrap(pk: &str, inner: &str) -> String {
+    match pk {
+        "paren" => format!("({})", inner),
+        "list" => format!("[{}][0]", inner),
+        "map" => format!("{{'k': {}}}.k", inner),
+        "callarg" => format!("f({})", inner),
+        "filterarg" => format!("x|f({})", inner),
+        "slice" => format!("x[{}:]", inner),
+        _ => format!("{{'k': {}}}", inner),
+    }
+}
+
+/// `groups` chains of `per` items each, stacked on one path through the grouping primary
+fn stacked_chains(ck: &str, pk: &str, groups: usize, per: usize) -> String {
+    let mut e = format!("x{}", chain_suffix(ck).repeat(per));
+    for _ in 1..groups {
+        e = format!("{}{}", group_wrap(pk, &e), chain_suffix(ck).repeat(per));
+    }
+    e
+}
+
+fn place(pl: &str, expr: &str) -> String {
+    match pl {
+        "expr" => format!("{{{{ {} }}}}", expr),
+        "for" => format!("{{% for a in {} %}}{{% endfor %}}", expr),
+        "if" => format!("{{% if {} %}}{{% endif %}}", expr),
+        "set" => format!("{{% set a = {} %}}", expr),
+        "macrodef" => format!("{{% macro mm(p={}) %}}{{% endmacro %}}{{{{ mm() }}}}", expr),
+        "callblk" => format!("{{% macro mm(p) %}}{{% endmacro %}}{{% call mm({}) %}}{{% endcall %}}", expr),
+        _ => format!("{{% with a = {} %}}{{% endwith %}}", expr),
+    }
+}
+
 fn depth_source(kind: &str, n: usize) -> (String, bool) {
     // (source, is_template)
     let rep = |s: &str| s.repeat(n);
+    // stk:<chain>:<group>:<placement> n  — n chains of (limit - 1) items stacked through a grouping
+    // primary: the nesting accounting must refuse it (the longest path has n·(limit-1) loop-built
+    // nodes); if it does not, the AST is that deep
+    // stkmax:<chain>:<group>:<placement> n — the same shape with the limit shared among the n chains:
+    // about the deepest input the parser accepts
+    let parts: Vec<&str> = kind.split(':').collect();
+    if (parts[0] == "stk" || parts[0] == "stkmax") && parts.len() == 4 {
+        let limit = max_expr_nesting();
+        let per = if parts[0] == "stk" { limit.saturating_sub(1) } else { (limit / n.max(1)).saturating_sub(2) };
+        return (place(parts[3], &stacked_chains(parts[1], parts[2], n.max(1), per)), true);
+    }
     match kind {
         "paren" => (format!("{}1{}", rep("("), rep(")")), false),
         "not" => (format!("{}x", rep("not ")), false),
@@ -864,7 +983,9 @@ fn transition_ok(tok: &str, pc: u32, h: usize, next: u32, h2: usize) -> bool {
         "call" => (fall && h2 == h - n(1) + 1) || (n(3) == 1 && n(1) == 1 && h2 == h),
         "cdyn" => (fall && h2 <= h) || (n(2) == 1 && h2 == h - 1),
         "it" => (next == pc + 1 && h2 == h + 1) || (next as i64 == n(1) && h2 == h),
-        "plf" => (fall && h2 == h) || h2 == h || h2 == h + 1,
+        // ordinary loop end, or the return of a recursion level: its leftovers are truncated away and
+        // the captured output (if any) is pushed
+        "plf" => (fall && h2 == h) || h2 <= h + 1,
         "j" => next as i64 == n(1) && h2 == h,
         "jf" => (next == pc + 1 || next as i64 == n(1)) && h2 == h - 1,
         "jfp" | "jtp" => (next == pc + 1 && h2 == h - 1) || (next as i64 == n(1) && h2 == h),
@@ -1328,6 +1449,49 @@ fn gen_builtin_cases(out: &mut Vec<String>, rng: &mut Rng, thorough: bool) {
     add_call_cases(out, rng, "block:self", &|_r, a| {
         format!("{{% extends 'layout.html' %}}{{% block title %}}{{{{ super({}) }}}}{{{{ self.body({}) }}}}{{% endblock %}}{{% block body %}}b{{% endblock %}}", a, a)
     }, &["x"], per * 2, thorough);
+    // engine objects kept alive past their scope, then every attribute read / every method called
+    {
+        let loop_reads = ["{{ L.index0 }}", "{{ L.index }}", "{{ L.length }}", "{{ L.revindex }}", "{{ L.revindex0 }}", "{{ L.first }}", "{{ L.last }}",
+            "{{ L.previtem }}", "{{ L.nextitem }}", "{{ L.depth }}", "{{ L.depth0 }}", "{{ L.cycle() }}", "{{ L.cycle(1, 2) }}", "{{ L.changed() }}{{ L.changed(1) }}{{ L.changed(1) }}",
+            "{{ L }}", "{{ L|list }}", "{{ L|items }}", "{{ L|tojson }}", "{{ L([1, 2]) }}", "{{ L() }}", "{% for y in L %}{{ y }}{% endfor %}", "{{ L.nosuch }}{{ L.nosuch() }}",
+            "{{ L == L }}{{ L|string|length }}{{ L is defined }}", "{% set l2 = L %}{{ l2([1, 2]) }}", "{% set l2 = L %}{{ l2(*xs) }}{{ l2(3) }}"];
+        let its = ["[1, 2]", "xs", "it", "once", "range(3)", "[1]", "{'a': 1}", "'ab'", "[[1, [2]], [3]]"];
+        let mut n = 0usize;
+        for it in its {
+            for (mods, brk) in [("", ""), ("", "{% break %}"), (" recursive", ""), (" if x", ""), (" recursive", "{% if loop.depth0 < 1 %}{{ loop([4, 5]) }}{% endif %}")] {
+                for rd in loop_reads {
+                    // through a namespace attribute
+                    let src = format!("{{% set ns = namespace() %}}{{% for x in {}{} %}}{{% set ns.l = loop %}}{}{{% endfor %}}{}", it, mods, brk, rd.replace('L', "ns.l"));
+                    out.push(format!("t escaped:loop-ns {} {}", n % 2, hex(src.as_bytes())));
+                    n += 1;
+                }
+                // the outer loop object read after an inner loop / in the else branch / through a macro closure
+                let src = format!("{{% set ns = namespace() %}}{{% for x in {it}{mods} %}}{{% for y in {it} %}}{{% set ns.i = loop %}}{brk}{{% endfor %}}{{{{ loop.revindex0 }}}}{{{{ loop.nextitem }}}}{{{{ ns.i.revindex0 }}}}{{{{ ns.i.revindex }}}}{{{{ ns.i.last }}}}{{{{ ns.i.nextitem }}}}{{% else %}}{{{{ loop }}}}{{% endfor %}}{{{{ ns.i.revindex0 }}}}{{{{ ns.i.index }}}}");
+                out.push(format!("t escaped:loop-outer {} {}", n % 2, hex(src.as_bytes())));
+                let src = format!("{{% set ns = namespace() %}}{{% for x in {it}{mods} %}}{{% macro cl() %}}{{{{ loop.index }}}}{{{{ loop.revindex0 }}}}{{{{ loop.length }}}}{{{{ loop.nextitem }}}}{{{{ loop.cycle(1) }}}}{{% endmacro %}}{{% set ns.m = cl %}}{brk}{{% endfor %}}{{{{ ns.m() }}}}");
+                out.push(format!("t escaped:loop-closure {} {}", n % 2, hex(src.as_bytes())));
+            }
+        }
+        let others = [
+            ("caller", "{% set ns = namespace() %}{% macro mc() %}{% set ns.c = caller %}{{ caller() }}{% endmacro %}{% call mc() %}body{{ x }}{% endcall %}{{ ns.c() }}{{ ns.c(1) }}{{ ns.c.name }}{{ ns.c.arguments }}{{ ns.c }}"),
+            ("caller-args", "{% set ns = namespace() %}{% macro mc() %}{% set ns.c = caller %}{% endmacro %}{% call(a, b=2) mc() %}{{ a }}{{ b }}{% endcall %}{{ ns.c(1) }}{{ ns.c() }}{{ ns.c(1, 2, 3) }}{{ ns.c(b=1) }}"),
+            ("macro-import", "{% set ns = namespace() %}{% with %}{% import 'macros.txt' as mm %}{% set ns.mm = mm %}{% set ns.m = mm.m %}{% set ns.r = mm.r %}{% endwith %}{{ ns.m(1) }}{{ ns.r(3) }}{{ ns.mm.m(1, 2, 3) }}{{ ns.mm }}{{ ns.mm.exported }}{{ ns.mm|items }}{{ ns.mm.nosuch }}{{ ns.m.name }}{{ ns.m.arguments }}{{ ns.m.caller }}"),
+            ("macro-from", "{% set ns = namespace() %}{% with %}{% from 'macros.txt' import m, r as rr %}{% set ns.m = m %}{% set ns.r = rr %}{% endwith %}{{ ns.m(1) }}{{ ns.r(2) }}{{ ns.m() }}{{ ns.r() }}{{ ns.m(*xs) }}{{ ns.m(**m) }}"),
+            ("macro-scope", "{% set ns = namespace() %}{% for x in xs %}{% with y = x %}{% macro inner(p) %}{{ p }}{{ x }}{{ y }}{{ loop.index }}{% endmacro %}{% set ns.f = inner %}{% endwith %}{% endfor %}{{ ns.f(1) }}{{ ns.f() }}"),
+            ("cycler", "{% set c = cycler(1, 2, 3) %}{{ c.next() }}{{ c.current }}{{ c.next() }}{{ c.next() }}{{ c.next() }}{{ c.reset() }}{{ c.current }}{{ c }}{{ c.nosuch() }}{{ c.next(1) }}"),
+            ("cycler-empty", "{% set c = cycler() %}{{ c.next() }}{{ c.current }}{{ c.reset() }}"),
+            ("joiner", "{% set j = joiner() %}{{ j() }}{{ j() }}{{ j(1) }}{% set k = joiner(big) %}{{ k() }}{{ k() }}{{ j }}{{ joiner(1, 2) }}"),
+            ("oneshot", "{% for x in once %}{% break %}{% endfor %}{{ once|list }}{{ once|length }}{% for y in once %}{{ loop.length }}{{ loop.revindex }}{{ loop.revindex0 }}{{ loop.last }}{% endfor %}{{ once|first }}{{ once|last }}{{ once[0] }}{{ once[-1:] }}"),
+            ("oneshot-ns", "{% set ns = namespace() %}{% for x in once %}{% set ns.l = loop %}{% break %}{% endfor %}{{ once|list }}{{ ns.l.nextitem }}{{ ns.l.length }}{{ ns.l.revindex }}{{ ns.l.revindex0 }}{{ ns.l.last }}{{ ns.l.previtem }}"),
+            ("block-self", "{% set ns = namespace() %}{% block bb %}{% set ns.s = self %}{% for x in xs %}{% set ns.l = loop %}{% endfor %}{% endblock %}{{ ns.s.bb() }}{{ ns.l.revindex0 }}{{ ns.s }}"),
+            ("include-loop", "{% set ns = namespace() %}{% for x in xs %}{% include 'inc.txt' %}{% set ns.l = loop %}{% endfor %}{% include 'inc.txt' %}{{ ns.l.revindex0 }}{{ ns.l.revindex }}"),
+        ];
+        for (label, src) in others {
+            for w in 0..4 {
+                out.push(format!("t escaped:{} {} {}", label, w, hex(src.as_bytes())));
+            }
+        }
+    }
     // every expression / target position of every statement filled with expressions of every shape
     let shapes = ["1", "'a'", "a - 1", "a()", "a.b", "[a, b]", "(a, b)", "a[0]", "-a", "not a", "a if b", "a if b else c", "loop", "true",
         "none", "", "*", "a b", "a|upper", "a is defined", "{'k': a}", "a.b.c", "(a, (b, c))", "ns.x", "a = 1", "1.5", "9223372036854775808"];
@@ -1544,6 +1708,12 @@ fn gen_kernel_cases(out: &mut Vec<String>, thorough: bool) {
     for l in 0..=5 {
         out.push(format!("k loopattr {} 1", l));
         out.push(format!("k loopattr {} 0", l));
+    }
+    for l in 1..=5 {
+        for sized in ["1", "0"] {
+            out.push(format!("k loopesc {} {} 0", l, sized));
+            out.push(format!("k loopesc {} {} 1", l, sized));
+        }
     }
     for st in ["c", "u", "x"] {
         for d in [1u32, 2, 3, 4, 5, 6, 7, 8, 9, 12, 13, 20, 30] {
@@ -1809,6 +1979,29 @@ fn gen_cases(thorough: bool) -> Vec<String> {
     for kind in DEPTH_KINDS {
         for n in depths {
             cases.push(format!("d {} {}", kind, n));
+        }
+    }
+    // (4b) adversarial probes derived from the nesting model: chains stacked through every grouping
+    // primary, at every placement
+    for ck in CHAIN_KINDS {
+        for pk in GROUP_KINDS {
+            if *pk == "filterarg" && matches!(*ck, "attr" | "item" | "call") {
+                continue; // no postfix after a filter: not in the grammar
+            }
+            for g in if thorough { vec![2usize, 3, 12, 60] } else { vec![2usize, 60] } {
+                cases.push(format!("d stk:{}:{}:expr {}", ck, pk, g));
+            }
+            for g in if thorough { vec![1usize, 2, 10, 60] } else { vec![2usize, 60] } {
+                cases.push(format!("d stkmax:{}:{}:expr {}", ck, pk, g));
+            }
+        }
+        for pl in PLACEMENTS.iter().skip(1) {
+            if *ck == "ternary" && matches!(*pl, "for" | "if") {
+                continue; // `if` after the iterable / condition is not a conditional expression there
+            }
+            cases.push(format!("d stk:{}:paren:{} 2", ck, pl));
+            cases.push(format!("d stk:{}:list:{} 40", ck, pl));
+            cases.push(format!("d stkmax:{}:paren:{} 40", ck, pl));
         }
     }
     // (1) kernels
